@@ -391,7 +391,7 @@ impl Prop for C13 {
             return run_conv(&c).fails;
         }
         // obligations are deterministic: recompute all and report those matching the saved one
-        let w = WorkerCtx { tier: Tier::Quick, idx: 0, n: 1, seed: 0, known: Known::default() };
+        let w = WorkerCtx { tier: Tier::Quick, idx: 0, n: 1, seed: 0, known: Known::default(), journal: None };
         let mut e = Enumerated::new(&w, "C13", "obligation");
         layout_obligations(&mut e);
         const_obligations(&mut e);
